@@ -15,6 +15,8 @@ import (
 	"golang.org/x/tools/go/ssa"
 )
 
+var outDir = verifDir
+
 type Obligation struct {
 	Name     string
 	Verdicts []Verdict
@@ -117,6 +119,9 @@ func (e *Engine) funcsForProperty(prop string) []string {
 		if b.First("trusted") != nil || b.First("skip") != nil {
 			continue
 		}
+		if fn := e.funcs[b.Name]; fn != nil && fn.Parent() != nil && !strings.HasPrefix(b.Name, "var:") && b.First("modular") == nil {
+			continue // clauses of an inlined closure: checked where it is inlined
+		}
 		hit := false
 		for _, p := range b.Props() {
 			if p == prop {
@@ -185,6 +190,22 @@ type BaselineEntry struct {
 	Name   string `json:"name"`
 	Clause string `json:"clause,omitempty"`
 	Func   string `json:"func"`
+	Auto   bool   `json:"auto,omitempty"` // automatic obligation (safe/lockset/order/...): may vanish with the code site
+}
+
+// isAutoObligation: obligations generated from code sites rather than from contract clauses.
+func isAutoObligation(name string) bool {
+	i := strings.LastIndex(name, "/")
+	if i < 0 {
+		return false
+	}
+	k := name[i+1:]
+	for _, p := range []string{"safe:", "lockset:", "own:", "order#", "alias:", "lock-balance:", "bcast-locked#"} {
+		if strings.HasPrefix(k, p) {
+			return true
+		}
+	}
+	return strings.HasSuffix(name, "/lockset-stable")
 }
 
 type Baseline struct {
@@ -320,7 +341,7 @@ func cmdBaseline(args []string) int {
 					fmt.Printf("  [%s] not admitted (slow): %s\n", p, o.Name)
 					continue
 				}
-				entries = append(entries, BaselineEntry{Name: o.Name, Clause: o.Clause, Func: o.Func})
+				entries = append(entries, BaselineEntry{Name: o.Name, Clause: o.Clause, Func: o.Func, Auto: isAutoObligation(o.Name)})
 			} else {
 				fail++
 				fmt.Printf("  [%s] not admitted (undischarged on the unchanged tree): %s\n", p, o.Name)
@@ -355,7 +376,10 @@ func cmdCheck(args []string) int {
 	fs := flag.NewFlagSet("check", flag.ExitOnError)
 	prop := fs.String("p", "", "property id")
 	tier := fs.String("tier", "", "quick|thorough")
+	repo := fs.String("repo", repoDir, "repository to check (self-tests use scratch copies)")
+	out := fs.String("out", verifDir, "directory receiving evidence/ and replays/ (self-tests use a scratch directory)")
 	fs.Parse(args)
+	outDir = *out
 	if *tier == "" {
 		*tier = os.Getenv("VERIF_TIER")
 	}
@@ -364,9 +388,10 @@ func cmdCheck(args []string) int {
 	}
 	seed, _ := strconv.Atoi(os.Getenv("VERIF_SEED"))
 	t0 := time.Now()
-	e, err := loadEngine(repoDir)
+	e, err := loadEngine(*repo)
 	if err != nil {
-		fmt.Fprintln(os.Stderr, "gobv: cannot load /repo:", err)
+		fmt.Fprintln(os.Stderr, "gobv: cannot load", *repo, ":", err)
+		// a tree that no longer loads cannot be verified: report as a harness error, not as a verdict
 		return 2
 	}
 	base, err := loadBaseline()
@@ -394,9 +419,15 @@ func cmdCheck(args []string) int {
 	}
 	var viols []viol
 	discharged := 0
+	vanished := 0
 	var samples []map[string]interface{}
 	for _, be := range want {
 		o := pr.Obs[be.Name]
+		if o == nil && be.Auto && e.funcs[be.Func] != nil {
+			// the code site this automatic obligation was generated from is gone: nothing left to prove
+			vanished++
+			continue
+		}
 		if o == nil {
 			viols = append(viols, viol{be.Name, "obligation can no longer be generated from the current source (function, loop, call site or identifier named by the contract is gone)", nil})
 			continue
@@ -434,7 +465,7 @@ func cmdCheck(args []string) int {
 	}
 	exit := 0
 	nviol := 0
-	os.MkdirAll(filepath.Join(verifDir, "replays", *prop), 0o755)
+	os.MkdirAll(filepath.Join(outDir, "replays", *prop), 0o755)
 	for _, v := range viols {
 		kf := false
 		for _, k := range known {
@@ -466,7 +497,7 @@ func cmdCheck(args []string) int {
 	if coverFail > 0 && exit == 0 {
 		exit = 2
 	}
-	writeEvidence(e, pr, *prop, *tier, seed, len(want), discharged, nviol, covers, notAdmitted, samples, time.Since(t0).Seconds())
+	writeEvidence(e, pr, *prop, *tier, seed, len(want)-vanished, discharged, nviol, covers, notAdmitted, samples, time.Since(t0).Seconds())
 	fmt.Printf("%s: %d/%d admitted obligations discharged, %d violations, %d functions, %d queries, solver %.1fs, wall %.1fs\n",
 		*prop, discharged, len(want), nviol, len(pr.Funcs), pr.Queries, pr.SolverSec, time.Since(t0).Seconds())
 	return exit
@@ -534,14 +565,14 @@ func writeEvidence(e *Engine, pr *PropRun, prop, tier string, seed, obligations,
 		"wall_s":      wall,
 		"violations":  viols,
 	}
-	os.MkdirAll(filepath.Join(verifDir, "evidence"), 0o755)
+	os.MkdirAll(filepath.Join(outDir, "evidence"), 0o755)
 	data, _ := json.MarshalIndent(ev, "", " ")
-	os.WriteFile(filepath.Join(verifDir, "evidence", prop+".json"), data, 0o644)
+	os.WriteFile(filepath.Join(outDir, "evidence", prop+".json"), data, 0o644)
 }
 
 // writeReplay records a failed obligation: clause, solver output, model (when there is one).
 func writeReplay(e *Engine, prop, ob, reason string, o *Obligation) string {
-	path := filepath.Join(verifDir, "replays", prop, sanitize(ob)+".json")
+	path := filepath.Join(outDir, "replays", prop, sanitize(ob)+".json")
 	rec := map[string]interface{}{"property": prop, "obligation": ob, "reason": reason, "confirmed_on_real_code": false}
 	if o != nil {
 		var fails []map[string]interface{}
